@@ -22,7 +22,9 @@ UNITS = [src('base', 'src', 'ProblemDefinition.cpp'), src('base', 'src', 'Optimi
          src(G + 'cforest/src/CForest.cpp'), src(G + 'AnytimePathShortening.cpp'), src(G + 'rrt/src/LBTRRT.cpp'),
          src(G + 'rrt/src/LazyLBTRRT.cpp'), src(G + 'sst/src/SST.cpp'), src(G + 'fmt/src/FMT.cpp'), src(G + 'fmt/src/BFMT.cpp'),
          src(G + 'informedtrees/bitstar/src/Vertex.cpp'), src(G + 'informedtrees/aitstar/src/Vertex.cpp'),
-         src(G + 'informedtrees/eitstar/src/Vertex.cpp'), src(G + 'informedtrees/eitstar/src/State.cpp'), src('control/planners/sst/src/SST.cpp')]
+         src(G + 'informedtrees/eitstar/src/Vertex.cpp'), src(G + 'informedtrees/eitstar/src/State.cpp'), src('control/planners/sst/src/SST.cpp'),
+         src('base', 'objectives', 'src', 'PathLengthOptimizationObjective.cpp'), src('base', 'objectives', 'src', 'StateCostIntegralObjective.cpp'),
+         src('base', 'objectives', 'src', 'MinimaxObjective.cpp')]
 
 OO = 'ompl::base::OptimizationObjective::'
 
@@ -1408,6 +1410,130 @@ def r04n(rep, F, rule='R04n'):
     rep.require_count(rule, 'registration round trips', n, 2)
 
 
+def r04o(rep, F):
+    rep.rule('R04o', 'the cost algebra the "true cost" is defined by, interpreted over an abstract one-dimensional space (states are '
+                     'rationals, interpolation is linear, distance |a - b|, state cost c(x) = x^2 + 1, segment counts 1..5, motions 0 -> 2 '
+                     'and 1 -> -3): PathLengthOptimizationObjective::motionCost is the distance and its heuristic / best estimate equal '
+                     'it (admissible); StateCostIntegralObjective::motionCost with interpolation is the trapezoid sum over the nd + 1 '
+                     'subdivision points and without interpolation (and as best estimate) the trapezoid of the two end points; '
+                     'MinimaxObjective::motionCost is the worst state cost over the subdivision points 1..nd and its combineCosts is the '
+                     'worse of the two; the base combineCosts adds, identityCost is 0, the base heuristics return the identity')
+    from engine import obj
+    from fractions import Fraction as Q
+    Bo = 'ompl::base::'
+
+    def cst(x):
+        return x * x + 1
+
+    def run(qname, nd, interp, *av):
+        fs = [g for g in F.by_name.get(qname, []) if g.body and len(g.params) == len(av)]
+        if not fs:
+            raise AnalysisBroken('R04o: %s vanished' % qname)
+        f = fs[0]
+
+        def call(it, n, env):
+            c = n.get('callee') or ''
+            short = c.split('::')[-1]
+            a = args(it.fn, n) if n['k'] == 'CXXMemberCallExpr' else n['ch']
+            if short == 'value' and 'Cost' in c:
+                return it.ev(n['ch'][0], env)
+            if short == 'stateCost':
+                return cst(it.ev(a[0], env))
+            if short == 'identityCost':
+                return Q(0)
+            if short == 'infiniteCost':
+                return float('inf')
+            if short == 'isCostBetterThan' and len(a) == 2:
+                return it.ev(a[0], env) < it.ev(a[1], env)
+            if short == 'getStateSpace':
+                return ('space',)
+            if short == 'validSegmentCount':
+                return nd
+            if short in ('cloneState',):
+                return it.ev(a[0], env)
+            if short == 'allocState':
+                return ('scratch',)
+            if short == 'freeState':
+                return None
+            if short == 'distance' and len(a) == 2:
+                return abs(it.ev(a[0], env) - it.ev(a[1], env))
+            if short == 'interpolate' and len(a) == 4:
+                x, y, t = it.ev(a[0], env), it.ev(a[1], env), it.ev(a[2], env)
+                k_ = it.lkey(it.fn.strip(a[3]))
+                if k_ is None:
+                    raise AnalysisBroken('R04o: interpolation into a non-local state')
+                env[k_] = x + Q(t) * (y - x)
+                return None
+            return NotImplemented
+
+        def construct(it, n, av_):
+            if 'Cost' in (n.get('ty') or '') and len(av_) == 1:
+                return av_[0]
+            return NotImplemented
+        it = obj.ObjInterp(F, f, this=obj.Ref(si_=('si',), interpolateMotionCost_=interp, threshold_=Q(0)), hooks={'call': call, 'construct': construct})
+        r, _ = it.run({'%s#%d' % (p_['name'], p_['did']): v for p_, v in zip(f.params, av)})
+        return r
+
+    def pts(a_, b_, nd):
+        return [a_ + Q(j, nd) * (b_ - a_) for j in range(nd + 1)]
+    motions = ((Q(0), Q(2)), (Q(1), Q(-3)))
+    n = 0
+    # path length
+    bad = None
+    for a_, b_ in motions:
+        mc = run(Bo + 'PathLengthOptimizationObjective::motionCost', 3, False, a_, b_)
+        if mc != abs(a_ - b_):
+            bad = bad or 'motionCost(%s, %s) = %s, the distance is %s' % (a_, b_, mc, abs(a_ - b_))
+        for hn in ('motionCostHeuristic', 'motionCostBestEstimate'):
+            h = run(Bo + 'PathLengthOptimizationObjective::' + hn, 3, False, a_, b_)
+            if h != abs(a_ - b_):
+                bad = bad or '%s(%s, %s) = %s, the motion cost is %s' % (hn, a_, b_, h, abs(a_ - b_))
+    n += 1
+    rep.add('R04o', Bo + 'PathLengthOptimizationObjective::motionCost', 'is-the-distance-and-heuristics-equal-it', bad is None, '', bad or 'motion cost = distance = heuristic = best estimate')
+    # state cost integral
+    bad = None
+    for a_, b_ in motions:
+        for nd in range(1, 6):
+            got = run(Bo + 'StateCostIntegralObjective::motionCost', nd, True, a_, b_)
+            p_ = pts(a_, b_, nd)
+            want = sum(Q(1, 2) * abs(y - x) * (cst(x) + cst(y)) for x, y in zip(p_, p_[1:]))
+            if got != want:
+                bad = bad or 'interpolated motionCost(%s, %s) with %d segments = %s, the trapezoid sum over the subdivision is %s' % (a_, b_, nd, got, want)
+        w2 = Q(1, 2) * abs(b_ - a_) * (cst(a_) + cst(b_))
+        if run(Bo + 'StateCostIntegralObjective::motionCost', 4, False, a_, b_) != w2:
+            bad = bad or 'motionCost without interpolation is not the trapezoid of the end points'
+        if run(Bo + 'StateCostIntegralObjective::motionCostBestEstimate', 4, True, a_, b_) != w2:
+            bad = bad or 'motionCostBestEstimate is not the trapezoid of the end points'
+    n += 1
+    rep.add('R04o', Bo + 'StateCostIntegralObjective::motionCost', 'trapezoid-sum', bad is None, '', bad or 'trapezoid sums on 10 abstract motions x segment counts')
+    # minimax
+    bad = None
+    for a_, b_ in motions:
+        for nd in range(1, 6):
+            got = run(Bo + 'MinimaxObjective::motionCost', nd, False, a_, b_)
+            want = max([Q(0)] + [cst(x) for x in pts(a_, b_, nd)[1:]])
+            if got != want:
+                bad = bad or 'motionCost(%s, %s) with %d segments = %s, the worst state cost over the subdivision points is %s' % (a_, b_, nd, got, want)
+    for x, y in ((Q(1), Q(2)), (Q(2), Q(1)), (Q(3), Q(3))):
+        if run(Bo + 'MinimaxObjective::combineCosts', 1, False, x, y) != max(x, y):
+            bad = bad or 'combineCosts(%s, %s) is not the worse of the two' % (x, y)
+    n += 1
+    rep.add('R04o', Bo + 'MinimaxObjective::motionCost', 'worst-state-cost', bad is None, '', bad or 'maximum over the subdivision points; combine = max')
+    # base algebra
+    bad = None
+    for x, y in ((Q(1), Q(2)), (Q(5, 2), Q(0))):
+        if run(OO + 'combineCosts', 1, False, x, y) != x + y:
+            bad = bad or 'combineCosts(%s, %s) is not the sum' % (x, y)
+        if run(OO + 'betterCost', 1, False, x, y) != min(x, y):
+            bad = bad or 'betterCost(%s, %s) is not the better of the two' % (x, y)
+    for hn in ('motionCostHeuristic', 'motionCostBestEstimate') if False else ('motionCostHeuristic',):
+        if run(OO + hn, 1, False, Q(0), Q(2)) != 0:
+            bad = bad or 'the base %s is not the identity cost' % hn
+    n += 1
+    rep.add('R04o', OO + 'combineCosts', 'base-algebra', bad is None, '', bad or 'combine adds, betterCost selects the better, base heuristic = identity')
+    rep.require_count('R04o', 'objective algebra obligations', n, 4)
+
+
 def r04k(rep, F):
     rep.rule('R04k', 'cost recurrences stay within one cost field: where a tree-node record has several cost-like fields (cost / incCost, '
                      'costApx_ / costLb_, ...) a store X->F = E whose value reads, directly or through locals of the function, the cost '
@@ -1480,3 +1606,4 @@ def run(rep):
     r04l(rep, F)
     r04m(rep, F)
     r04n(rep, F)
+    r04o(rep, F)
